@@ -67,6 +67,9 @@ func (m *Params) ValidateBasic() error {
 	if m.SignedWindow <= 1 {
 		return fmt.Errorf("invalid signed window too short")
 	}
+	if m.SlashFraction.IsNil() {
+		return fmt.Errorf("slash factor cannot be empty")
+	}
 	if m.SlashFraction.IsNegative() {
 		return fmt.Errorf("attempted to slash with a negative slash factor: %v", m.SlashFraction)
 	}
@@ -75,6 +78,9 @@ func (m *Params) ValidateBasic() error {
 	}
 	if m.IbcTransferTimeoutHeight <= 1 {
 		return fmt.Errorf("invalid ibc transfer timeout too short")
+	}
+	if m.OracleSetUpdatePowerChangePercent.IsNil() {
+		return fmt.Errorf("power change percent cannot be empty")
 	}
 	if m.OracleSetUpdatePowerChangePercent.IsNegative() {
 		return fmt.Errorf("attempted to powet change percent with a negative: %v", m.OracleSetUpdatePowerChangePercent)
